@@ -140,4 +140,7 @@ theorem inv_of_reachable {P : Params} (hP : P.Valid) {σ : Sys P} (h : Reachable
   | init => exact inv_init P hP
   | step a _ hen ih => exact inv_step hP _ ih a hen
 
+/-- the Layer-A context of a system state: f, the Byzantine set, the ghost trace -/
+def ctxOf {P : Params} (hP : P.Valid) (σ : Sys P) : QAbs.Ctx (Op P) := ctxT P hP σ.trace
+
 end Ssv.Qbft.B
